@@ -45,7 +45,7 @@ func TestC14Release(t *testing.T) {
 	if thorough() {
 		sizes = []int{10, 100, 1000}
 	}
-	col := evid.New("C14", "create-use-close-cycles", fmt.Sprintf("N in %v create/(nest)/use/close cycles against one long-lived provider (and optionally one long-lived parent scope), with contexts the caller never cancels (nil, Background, a child of a long-lived cancellable context, a context of a foreign type that forces context.WithCancel to start a goroutine), instances that hold on to their scope/context/dependencies (and, in a third of the cases, open a scope of their own below the Scope they are handed - initializer functions do so while their scope is still being created), and - when the configuration has initializer functions - a failing initializer (error or panic) at a rotating position in a generated share of the cycles; oracle after the cycles, with provider and parent still alive: goroutine count back at the pre-cycle baseline (bounded wait), every closed scope's context cancelled, weak handles of every closed scope object and of every instance created in the cycles dead after GC; non-trivial = N>=10, nested scopes or a failing initializer", sizes))
+	col := evid.New("C14", "create-use-close-cycles", fmt.Sprintf("N in %v create/(nest)/use/close cycles against one long-lived provider (and optionally one long-lived parent scope), with contexts the caller never cancels (nil, Background, a child of a long-lived cancellable context, a context of a foreign type that forces context.WithCancel to start a goroutine), instances that hold on to their scope/context/dependencies (and, in a third of the cases, open a scope of their own below the Scope they are handed - initializer functions do so while their scope is still being created; in a quarter of the nested cases the cycle's scope is closed by nobody but the Close method of an instance of its innermost descendant), and - when the configuration has initializer functions - a failing initializer (error or panic) at a rotating position in a generated share of the cycles; oracle after the cycles, with provider and parent still alive: goroutine count back at the pre-cycle baseline (bounded wait), every closed scope's context cancelled, weak handles of every closed scope object and of every instance created in the cycles dead after GC; non-trivial = N>=10, nested scopes or a failing initializer", sizes))
 	defer col.Flush()
 	rapid.Check(t, func(rt *rapid.T) {
 		o := kit.FullOpts()
@@ -180,6 +180,20 @@ func TestC14Release(t *testing.T) {
 		closeChildFirst := rapid.Bool().Draw(rt, "closeChildFirst")
 		// in some cycles a resolution is still inside a constructor when the scope is closed: what it
 		// finishes constructing afterwards belongs to nobody and must be released like everything else
+		closedFromBelow := nest > 0 && rapid.IntRange(0, 3).Draw(rt, "closedFromBelow") == 0
+		closedBelow := 0
+		var armedScope godi.Scope
+		if closedFromBelow {
+			w.InClose = func(*kit.Entry) {
+				mu.Lock()
+				sc := armedScope
+				armedScope = nil
+				mu.Unlock()
+				if sc != nil {
+					_ = sc.Close()
+				}
+			}
+		}
 		siblings := rapid.SampledFrom([]int{1, 1, 2, 3}).Draw(rt, "siblings")
 		lateEvery := rapid.SampledFrom([]int{0, 0, 1, 3}).Draw(rt, "lateEvery")
 		late := 0
@@ -312,10 +326,28 @@ func TestC14Release(t *testing.T) {
 						_, _ = tgt.Get(kit.RType(id.T))
 					}
 				}
-				if closeChildFirst && len(chain) > 1 {
+				if closedFromBelow && len(chain) > 1 {
+					// the scope is closed by nobody but an instance of its innermost descendant, from inside that
+					// descendant's disposal (a unit of work that ends its session)
+					mu.Lock()
+					armedScope = s
+					mu.Unlock()
 					_ = chain[len(chain)-1].Close()
+					mu.Lock()
+					fired := armedScope == nil
+					armedScope = nil
+					mu.Unlock()
+					if fired {
+						closedBelow++
+					} else {
+						_ = s.Close()
+					}
+				} else {
+					if closeChildFirst && len(chain) > 1 {
+						_ = chain[len(chain)-1].Close()
+					}
+					_ = s.Close()
 				}
-				_ = s.Close()
 				for _, c := range chain {
 					if c.Context().Err() == nil {
 						f = fail("C14", "context-cancelled", fmt.Sprintf("depth%d", len(chain)), "a closed scope's context is not cancelled (cycle %d)", i)
@@ -332,6 +364,9 @@ func TestC14Release(t *testing.T) {
 		labels := []string{fmt.Sprintf("N=%d", N), fmt.Sprintf("nest=%d", nest)}
 		if nestedMade > 0 {
 			labels = append(labels, "scopes-opened-by-user-code-inside")
+		}
+		if closedBelow > 0 {
+			labels = append(labels, "closed-only-from-a-descendant's-disposal")
 		}
 		if failedCreates > 0 {
 			labels = append(labels, "failed-creations")
